@@ -124,6 +124,15 @@ class Faults:
             raise OSError(code, os.strerror(code), getattr(f, 'name', ''))
 
 
+_RESOURCE_SLOTS = []
+
+
+def _ddsmt_modules():
+    return [sys.modules[n] for n in sorted(sys.modules)
+            if (n == 'ddsmt' or n.startswith('ddsmt.'))
+            and not n.startswith('ddsmt.tests') and sys.modules[n] is not None]
+
+
 def _install_once():
     global _INSTALLED, _SANDBOX
     if _INSTALLED:
@@ -132,15 +141,23 @@ def _install_once():
     probes.install_probes()
     probes.install_monitoring()
     import multiprocessing
+    import subprocess as _subprocess
+    import resource as _resource
     fm = seams.FakeMultiprocessing(multiprocessing)
-    for mod in (m.ddmin, m.hier):
-        if hasattr(mod, 'multiprocessing'):
-            mod.multiprocessing = fm
-        if hasattr(mod, 'time'):
-            mod.time = seams.FakeTime
-    m.checker.subprocess = seams.FakeSubprocess
-    m.checker.time = seams.FakeTime
-    m.cli.time = seams.FakeTime
+    # every module of the package: whichever of them holds the standard
+    # modules (a refactoring may move pool creation or the command runner)
+    for mod in _ddsmt_modules():
+        for name, val in list(vars(mod).items()):
+            if val is multiprocessing:
+                setattr(mod, name, fm)
+            elif val is _rtime:
+                setattr(mod, name, seams.FakeTime)
+            elif val is _subprocess:
+                setattr(mod, name, seams.FakeSubprocess)
+            elif val is _resource:
+                _RESOURCE_SLOTS.append((mod, name))
+    if not _RESOURCE_SLOTS:
+        _RESOURCE_SLOTS.append((m.checker, 'resource'))
     m.tmpfiles.os = seams._OsForTmpfiles()
     m.tmpfiles.threading = seams._ThreadingForTmpfiles()
     m.nodeio.open = seams.sim_open
@@ -238,6 +255,37 @@ class Result:
     pass
 
 
+def _is_shared_counter(v):
+    if isinstance(v, seams.SimCounter):
+        return True
+    try:
+        from multiprocessing.sharedctypes import Synchronized
+    except ImportError:  # pragma: no cover
+        return False
+    return isinstance(v, Synchronized)
+
+
+def _install_id_counter(m, points, every):
+    """Replace the shared node-id counter (a multiprocessing.Value, wherever
+    ddsmt.nodes keeps it: class attribute of Node, module global, attribute
+    of a helper object) by a fresh simulated one."""
+    n = 0
+    for holder in (m.nodes.Node, m.nodes):
+        for name, val in list(vars(holder).items()):
+            if _is_shared_counter(val):
+                setattr(holder, name, seams.SimCounter(points, every))
+                n += 1
+            elif (hasattr(val, '__dict__') and not isinstance(val, type)
+                  and type(val).__module__ == m.nodes.__name__):
+                for n2, v2 in list(vars(val).items()):
+                    if _is_shared_counter(v2):
+                        setattr(val, n2, seams.SimCounter(points, every))
+                        n += 1
+    if n == 0 and 'id-counter' not in probes.MISSING:
+        probes.MISSING.append('id-counter')
+    return n
+
+
 def _write_exec(path, text=seams.MAIN_TEXT, mode=0o755):
     with open(path, 'w') as f:
         f.write(text)
@@ -283,10 +331,8 @@ def execute(spec):
 
     # -- reset process-global state -----------------------------------------------
     seams.restore_pristine()
-    if hasattr(m.nodes.Node, '_Node__ID_COUNTER'):
-        m.nodes.Node._Node__ID_COUNTER = seams.SimCounter(
-            (spec.get('sched') or {}).get('idc_points') or (),
-            (spec.get('sched') or {}).get('idc_every') or 0)
+    _install_id_counter(m, (spec.get('sched') or {}).get('idc_points') or (),
+                        (spec.get('sched') or {}).get('idc_every') or 0)
     seams._EVENTS.clear()
     seams._PREEXEC_TARGET.clear()
     root = logging.getLogger()
@@ -343,8 +389,9 @@ def execute(spec):
     CTX.inpath = inpath
     CTX.lookahead = sc.get('lookahead', 4) or 10**9
     CTX.faults = Faults(spec.get('faults'), rec)
-    m.checker.resource = (seams.FakeResourceWithPrlimit if spec.get(
-        'prlimit', True) else seams.FakeResourceNoPrlimit)
+    for mod, name in _RESOURCE_SLOTS:
+        setattr(mod, name, seams.FakeResourceWithPrlimit if spec.get(
+            'prlimit', True) else seams.FakeResourceNoPrlimit)
     fl = spec.get('faults') or {}
     if fl.get('interrupt') is not None:
         S.interrupt_at = tuple(fl['interrupt'])
